@@ -66,6 +66,11 @@ func (c13) Plan(tier string, seed int64) []core.Scenario {
 			}
 		}
 	}
+	// the connection that saw a panic keeps working for as long as it is used: seconds and tens of seconds later
+	out = append(out, core.Sc("panic-then-later").WithN("secs", 12).WithN("payload", 2))
+	if tier == "thorough" {
+		out = append(out, core.Sc("panic-then-later").WithN("secs", 35).WithN("payload", 0), core.Sc("panic-then-later").WithN("secs", 65).WithN("payload", 1))
+	}
 	for i := range out {
 		out[i].Seed = seed*295075147 + int64(i)
 	}
@@ -93,7 +98,79 @@ func mentionsPanic(err error, pk int, tok string) (bool, string) {
 	return true, ""
 }
 
+// panicThenLater: one ws connection; a handler panics; the same connection is then used at a steady, slow
+// pace for `secs` seconds (calls every 400 ms, a call that was in flight across the panic and is answered
+// at the end, a stream at the end). All of it behaves as if the panic had not happened, and the connection
+// is still the first one.
+func (c13) panicThenLater(sc core.Scenario, r *core.R) {
+	env := NewEnv(EnvOpt{})
+	defer env.Shutdown()
+	cl, err := env.NewClient(ClientOpt{})
+	if err != nil {
+		r.Inconclusive("client: %v", err)
+		return
+	}
+	bg := context.Background()
+	ht := Tok("h")
+	env.Svc.Hold(ht)
+	held := Go(ht, func() (string, error) { return cl.Echo(bg, ht, "") })
+	env.Svc.WaitEntered(ht, core.Grace)
+	pt := Tok("x")
+	po := Go(pt, func() (string, error) { return cl.Boom(bg, pt, sc.I("payload")) })
+	if !po.Wait(core.Grace) {
+		r.Violate("panic-call-hang", "the panicking call never returned")
+		return
+	} else if ok, why := mentionsPanic(po.Err, sc.I("payload"), pt); !ok {
+		r.Violate("panic-not-reported", "payload=%s: %s", c13Payload[sc.I("payload")], why)
+	}
+	start := time.Now()
+	calls, failed := 0, 0
+	for time.Since(start) < time.Duration(sc.I("secs"))*time.Second {
+		t := Tok("l")
+		o := Go(t, func() (string, error) { return cl.Echo(bg, t, "") })
+		calls++
+		if !o.Wait(core.Grace) || o.Err != nil || o.Val != svc.Reply(t) {
+			failed++
+			if failed <= 2 {
+				r.Violate("followup-failed", "%.1f s after a handler panic a call on the same connection failed: returned=%v val=%q err=%v", time.Since(start).Seconds(), o.Returned(), core.Trunc(o.Val, 40), o.Err)
+			}
+			if failed > 4 {
+				break
+			}
+		}
+		time.Sleep(400 * time.Millisecond)
+	}
+	env.Svc.Release(ht)
+	if !held.Wait(core.Grace) || held.Err != nil || held.Val != svc.Reply(ht) {
+		r.Violate("sibling-disturbed", "a call in flight across the panic and answered %.1f s later returned (%q, %v), returned=%v", time.Since(start).Seconds(), core.Trunc(held.Val, 40), held.Err, held.Returned())
+	}
+	st := Tok("s")
+	sctx, scancel := context.WithCancel(bg)
+	defer scancel()
+	if ch, err := cl.Sub(sctx, st, 20, svc.SGoroutine); err != nil {
+		r.Violate("followup-failed", "a subscription %.1f s after the panic failed: %v", time.Since(start).Seconds(), err)
+	} else {
+		g := drainItems(ch, 0, -1, nil)
+		if !core.WaitCh(g.done, core.Grace) {
+			r.Violate("stream-disturbed", "a 20-value stream %.1f s after the panic did not complete (%d values)", time.Since(start).Seconds(), g.n())
+		} else {
+			checkSeq(r, "after-panic", st, g.snapshot(), 20, true)
+		}
+	}
+	if n := env.Px.Accepts(); n != 1 {
+		r.Violate("connection-replaced", "the connection that saw the panic was replaced (%d connections) although nothing was injected", n)
+	}
+	r.Key(fmt.Sprintf("panic-then-later %ds payload=%d", sc.I("secs"), sc.I("payload")), true)
+	r.Obs("followup_calls", int64(calls))
+	r.Sample(map[string]interface{}{"scenario": "steady use of the connection after a panic", "seconds": sc.I("secs"), "calls": calls, "failed": failed})
+}
+
 func (p c13) Run(sc core.Scenario) core.Result {
+	if sc.Kind == "panic-then-later" {
+		r := core.NewR(sc)
+		p.panicThenLater(sc, r)
+		return r.Result()
+	}
 	r := core.NewR(sc)
 	switch sc.Str("kind") {
 	case "reverse":
